@@ -4,85 +4,7 @@
 //       loop had already advanced past the last examined position), so a client paging through a search missed matches;
 //  F13: a search in a stream without filters looked at stream.filtered_msgs (unused/empty for such a stream) instead of all
 //       messages and returned nothing.
-use std::io::{BufRead, BufReader};
-use std::process::{Child, Command, Stdio};
-use std::time::{Duration, Instant};
-use tungstenite::stream::MaybeTlsStream;
-use tungstenite::{Message, WebSocket};
-
-struct Server(Child);
-impl Drop for Server {
-    fn drop(&mut self) { let _ = self.0.kill(); let _ = self.0.wait(); }
-}
-
-type Ws = WebSocket<MaybeTlsStream<std::net::TcpStream>>;
-
-fn start() -> (Server, Ws) {
-    // the binary of /repo's current working tree
-    let st = Command::new("cargo").args(["build", "--offline", "--manifest-path", "/repo/Cargo.toml", "--bin", "adlt"])
-        .env("CARGO_NET_OFFLINE", "true").stdout(Stdio::null()).stderr(Stdio::null()).status().expect("cargo build");
-    assert!(st.success(), "cargo build --bin adlt failed");
-    let port = portpicker::pick_unused_port().expect("no port");
-    let mut child = Command::new("/repo/target/debug/adlt").args(["remote", "-p", &port.to_string()])
-        .stdout(Stdio::null()).stderr(Stdio::piped()).spawn().expect("spawn adlt remote");
-    // drain stderr in the background so the server never blocks on a full pipe
-    let err = child.stderr.take().unwrap();
-    std::thread::spawn(move || { for _l in BufReader::new(err).lines() {} });
-    let server = Server(child);
-    let t0 = Instant::now();
-    loop {
-        match tungstenite::client::connect(format!("ws://127.0.0.1:{}", port)) {
-            Ok((ws, _)) => {
-                if let MaybeTlsStream::Plain(s) = ws.get_ref() { s.set_read_timeout(Some(Duration::from_secs(20))).unwrap(); }
-                return (server, ws);
-            }
-            Err(e) => {
-                assert!(t0.elapsed() < Duration::from_secs(10), "could not connect: {e}");
-                std::thread::sleep(Duration::from_millis(50));
-            }
-        }
-    }
-}
-
-// send a command and return the first text frame that is a reply (`ok:` / `err:`) to it
-fn cmd(ws: &mut Ws, c: &str, reply_prefix: &str) -> String {
-    ws.write_message(Message::Text(c.to_string())).unwrap();
-    loop {
-        match ws.read_message().expect("reply") {
-            Message::Text(s) => {
-                if s.starts_with(reply_prefix) || s.starts_with("err:") { return s; }
-            }
-            _ => {}
-        }
-    }
-}
-
-fn json_after(s: &str, c: char) -> serde_json::Value {
-    let i = s.find(c).unwrap();
-    serde_json::from_str(&s[i..].trim_start_matches('=')).unwrap_or_else(|e| panic!("no json in {s}: {e}"))
-}
-
-fn open_stream(ws: &mut Ws, filters: &str) -> u64 {
-    let r = cmd(ws, &format!(r#"stream {{"window":[0,10],"binary":true{}}}"#, filters), "ok: stream");
-    assert!(r.starts_with("ok: stream"), "{r}");
-    json_after(&r, '{')["id"].as_u64().unwrap()
-}
-
-fn search(ws: &mut Ws, id: u64, start: u64, max: u64) -> (Vec<u64>, Option<u64>) {
-    let r = cmd(ws, &format!(r#"stream_search {} {{"filters":[{{"type":0,"apid":"A008"}}],"start_idx":{},"max_results":{}}}"#, id, start, max), "ok: stream_search");
-    assert!(r.starts_with("ok: stream_search"), "{r}");
-    let v = json_after(&r, '=');
-    (v["search_idxs"].as_array().unwrap().iter().map(|x| x.as_u64().unwrap()).collect(), v["next_search_idx"].as_u64())
-}
-
-const FILE: &str = "/repo/tests/lc_ex002.dlt"; // 11696 messages, 203 of them with APID A008
-
-fn opened() -> (Server, Ws) {
-    let (server, mut ws) = start();
-    let r = cmd(&mut ws, &format!(r#"open {{"files":[{}]}}"#, serde_json::json!(FILE)), "ok: open");
-    assert!(r.starts_with("ok: open"), "{r}");
-    (server, ws)
-}
+include!("f12_stream_search.rs_common");
 
 // wait until the stream has been filled (the file is parsed within milliseconds): poll the search until its result is stable
 fn settled_search(ws: &mut Ws, id: u64, max: u64) -> (Vec<u64>, Option<u64>) {
